@@ -71,7 +71,7 @@ def scenario_case(seed, tid):
     common.import_repo()
     rng = random.Random(seed)
     spec = {"kind": "scenario", "seed": seed, "policy": rng.choice(["priority", "priority", "overbook", "priority-pool", "naive"]),
-            "flavour": rng.choice(["preempt", "herd", "herd", "mixed"])}
+            "flavour": rng.choice(["preempt", "herd", "herd", "mixed", "branchy", "branchy", "twins"])}
     one_run(gen_params(random.Random(seed + 1)))
     runs = [scenario_run(spec), scenario_run(spec), fresh(spec, 0), fresh(spec, 1), fresh(spec, 2), fresh(spec, rng.randrange(3, 10**6))]
     enc = lambda x: json.dumps(x, sort_keys=True)
@@ -97,6 +97,8 @@ def case(seed, tid):
     common.import_repo()
     rng = random.Random(seed)
     params = gen_params(rng)
+    if rng.random() < 0.12:
+        params["random_seed"] = 0
     # dirty the process first: another simulation advances Container.next_container_num, registers schedulers, ...
     one_run(gen_params(random.Random(seed + 1)))
     runs = [one_run(params), one_run(params), fresh(params, 0), fresh(params, rng.choice([1, 12345, 987654321]))]
@@ -107,9 +109,17 @@ def case(seed, tid):
     other["cpus_per_pool"], other["ram_gb_per_pool"] = 8, 32
     other["multi_operator_containers"] = not params["multi_operator_containers"]
     other["allow_memory_overcommit"] = False
+    # ... and a parameter set is a mapping: the order of its keys means nothing
+    keys = list(other)
+    random.Random(seed + 2).shuffle(keys)
+    other = {k: other[k] for k in keys}
     arr_other = arrivals_only(one_run(other))
     seed2 = dict(params)
     seed2["random_seed"] = params["random_seed"] + 1
+    if params["random_seed"] == 0:
+        # seed 0 is a seed like any other: in particular not a synonym of the default seed
+        from eudoxia.simulator import parse_args_with_defaults
+        seed2["random_seed"] = parse_args_with_defaults({})["random_seed"]
     arr_seed2 = arrivals_only(one_run(seed2))
     enc = lambda x: json.dumps(x, sort_keys=True)
     # behaviours are handed to the monitor line by line as opaque strings: equality is what C07 is about
